@@ -567,6 +567,23 @@ Section Delete.
   Variable sch : schema.
   Variable oc : octx.
 
+  (* the filter  field = "<id>"  of the cascade constraint, over the referrer store rs *)
+  Definition casc_matches (rs f : name) (i : id) (st' : state) (x : id) : bool :=
+    present sch st' rs x &&
+    match get_field sch st' rs x f with FStr v => str_eqb v i | _ => false end.
+
+  (* cursor loop of fkDeleteCascadeConstraint: delete the current match, re-seek to the first
+     remaining match >= it (candidates are enumerated once; matches are re-evaluated) *)
+  Fixpoint cascade_loop (del : st_ev -> name -> id -> res st_ev) (rs f : name) (i : id)
+           (cands : list id) (cur : st_ev) : res st_ev :=
+    match cands with
+    | [] => Ok cur
+    | x :: rest =>
+        if casc_matches rs f i (fst cur) x then
+          do cur' <- del cur rs x; cascade_loop del rs f i rest cur'
+        else cascade_loop del rs f i rest cur
+    end.
+
   (* before-delete hook of one constraint; [del] is the recursive DeleteById (fuel already decreased) *)
   Definition before_delete_one (del : st_ev -> name -> id -> res st_ev) (stev : st_ev) (c : ictx) (k : cons) : res st_ev :=
     let (st, evs) := stev in
@@ -593,22 +610,10 @@ Section Delete.
         end
     | CFkCons _ _ _ => Ok stev
     | CFkCascade rs f cs =>
-        let matches (st' : state) (x : id) : bool :=
-          present sch st' rs x &&
-          match get_field sch st' rs x f with FStr v => str_eqb v i | _ => false end in
         match cs with
         | CascNone =>
-            if existsb (matches st) (ids_of st (root_of sch rs)) then Err ERefExists else Ok stev
-        | CascDelete =>
-            (* cursor loop: delete the current match, re-seek to the first remaining match >= it *)
-            (fix loop (cands : list id) (cur : st_ev) : res st_ev :=
-               match cands with
-               | [] => Ok cur
-               | x :: rest =>
-                   if matches (fst cur) x then
-                     do cur' <- del cur rs x; loop rest cur'
-                   else loop rest cur
-               end) (ids_of st (root_of sch rs)) stev
+            if existsb (casc_matches rs f i st) (ids_of st (root_of sch rs)) then Err ERefExists else Ok stev
+        | CascDelete => cascade_loop del rs f i (ids_of st (root_of sch rs)) stev
         end
     | CSystem =>
         match get_field sch st s i isSystemF with
@@ -623,15 +628,37 @@ Section Delete.
     | k :: r => do stev1 <- before_delete_one del stev c k; before_delete_all del stev1 c r
     end.
 
+  Fixpoint before_delete_chain (del : st_ev -> name -> id -> res st_ev) (i : id)
+           (ch : list (name * list cons)) (cur : st_ev) : res st_ev :=
+    match ch with
+    | [] => Ok cur
+    | (s', ks) :: r =>
+        do cur' <- before_delete_all del cur (mkIctx false (oc_sys oc) s' i) ks;
+        before_delete_chain del i r cur'
+    end.
+
   (* processDeleteConstraints for store s: the whole indexing chain, then link cleanup *)
   Definition process_delete (del : st_ev -> name -> id -> res st_ev) (stev : st_ev) (s : name) (i : id) : res st_ev :=
-    do stev1 <- (fix go (ch : list (name * list cons)) (cur : st_ev) : res st_ev :=
-                   match ch with
-                   | [] => Ok cur
-                   | (s', ks) :: r =>
-                       do cur' <- before_delete_all del cur (mkIctx false (oc_sys oc) s' i) ks; go r cur'
-                   end) (chain sch s) stev;
+    do stev1 <- before_delete_chain del i (chain sch s) stev;
     Ok (cleanup_links sch (fst stev1) s i, snd stev1).
+
+  (* child stores first: those whose FindById finds the entity (extended ones always do) *)
+  Fixpoint children_delete (del : st_ev -> name -> id -> res st_ev) (i : id)
+           (cs : list sdef) (cur : st_ev) (flows : list name) : res (st_ev * list name) :=
+    match cs with
+    | [] => Ok (cur, flows)
+    | d :: rest =>
+        if loadable sch (fst cur) (sd_name d) i then
+          do cur' <- process_delete del cur (sd_name d) i;
+          children_delete del i rest cur' (flows ++ [sd_name d])
+        else children_delete del i rest cur flows
+    end.
+
+  Fixpoint fire_flows (i : id) (fs : list name) (evs : list event) : res (list event) :=
+    match fs with
+    | [] => Ok evs
+    | c :: rest => do evs' <- fire (oc_vetoes oc) evs c Deleted i false; fire_flows i rest evs'
+    end.
 
   Fixpoint delete_by_id (fuel : nat) (stev : st_ev) (s : name) (i : id) : res st_ev :=
     match fuel with
@@ -641,16 +668,7 @@ Section Delete.
         if negb (present sch (fst stev) r i) then Err ENotFound
         else
           let del := delete_by_id n in
-          (* child stores first: those whose FindById finds the entity (extended ones always do) *)
-          do acc <- (fix go (cs : list sdef) (cur : st_ev) (flows : list name) : res (st_ev * list name) :=
-                       match cs with
-                       | [] => Ok (cur, flows)
-                       | d :: rest =>
-                           if loadable sch (fst cur) (sd_name d) i then
-                             do cur' <- process_delete del cur (sd_name d) i;
-                             go rest cur' (flows ++ [sd_name d])
-                           else go rest cur flows
-                       end) (children_of sch r) stev [];
+          do acc <- children_delete del i (children_of sch r) stev [];
           let '(stev1, flows) := acc in
           (* the root store's own FindById: the entity may have been removed by a cascade cycle *)
           if negb (present sch (fst stev1) r i) then Ok stev1
@@ -659,11 +677,7 @@ Section Delete.
             let st3 := del_ent (fst stev2) r i in
             let hasChildren := match flows with [] => false | _ => true end in
             do evs1 <- fire (oc_vetoes oc) (snd stev2) r Deleted i hasChildren;
-            do evs2 <- (fix go (fs : list name) (evs : list event) : res (list event) :=
-                          match fs with
-                          | [] => Ok evs
-                          | c :: rest => do evs' <- fire (oc_vetoes oc) evs c Deleted i false; go rest evs'
-                          end) flows evs1;
+            do evs2 <- fire_flows i flows evs1;
             Ok (st3, evs2)
     end.
 End Delete.
